@@ -1,4 +1,4 @@
-\* C14 generator + design check over the real-side signature (env C14_SIG).
+\* C14 generator only (no design invariants): prints the universe of env C14_SIG.
 SPECIFICATION Spec
 CONSTANTS
   Symbols <- JsonSymbols
@@ -8,7 +8,7 @@ CONSTANTS
   Flatten = FALSE
   IgnoreSize = FALSE
   Emit = TRUE
-INVARIANTS TypeOK Injective OrderSensitive NestingSensitive UniqueDecoding
+INVARIANTS TypeOK
 POSTCONDITION Stats
 ALIAS Shown
 CHECK_DEADLOCK FALSE
